@@ -248,6 +248,21 @@ def _user_score_classes(L):
     return _USER_SCORE_CLASSES[key]
 
 
+def _easy(spec, key):
+    """Easy-sample count in the type the caller has it in (a Python int, or what np.sum / np.count_nonzero return)."""
+    v = int(spec.get(key, 0))
+    t = spec.get("easy_type")
+    if t == "int64":
+        return np.int64(v)
+    if t == "int32":
+        return np.int32(v)
+    if t == "uint8_or_int64":
+        return np.uint8(v) if v < 256 else np.int64(v)
+    if t == "0d":
+        return np.asarray(v)
+    return v
+
+
 def build_scores(spec, L=None):
     """spec -> (object, caller_arrays dict). Caller arrays are kept so that the
     simulator can check that the library never writes to them."""
@@ -289,7 +304,7 @@ def build_scores(spec, L=None):
         callers = _callers({f"a{k_}": v_ for k_, v_ in enumerate(keep)})
         o = L.Scores.from_labels(
             labels_in, scores_in, pos_label=plab,
-            nb_easy_pos=int(spec.get("nb_easy_pos", 0)), nb_easy_neg=int(spec.get("nb_easy_neg", 0)),
+            nb_easy_pos=_easy(spec, "nb_easy_pos"), nb_easy_neg=_easy(spec, "nb_easy_neg"),
             score_class=spec.get("score_class", "pos"), equal_class=spec.get("equal_class", "pos"),
         )
         for _ in range(int(spec.get("swaps", 0))):
@@ -309,7 +324,7 @@ def build_scores(spec, L=None):
             pos.flags.writeable = False
             neg.flags.writeable = False
         callers = _callers({"pos": pos, "neg": neg})
-        o = ctor(pos, neg, nb_easy_pos=int(spec.get("nb_easy_pos", 0)), nb_easy_neg=int(spec.get("nb_easy_neg", 0)),
+        o = ctor(pos, neg, nb_easy_pos=_easy(spec, "nb_easy_pos"), nb_easy_neg=_easy(spec, "nb_easy_neg"),
                  score_class=spec.get("score_class", "pos"), equal_class=spec.get("equal_class", "pos"))
         for _ in range(int(spec.get("swaps", 0))):
             o = o.swap()
@@ -320,7 +335,7 @@ def build_scores(spec, L=None):
     callers = _callers({f"a{k_}": v_ for k_, v_ in enumerate(keep)})
     o = L.Scores(
         pos_in, neg_in,
-        nb_easy_pos=int(spec.get("nb_easy_pos", 0)), nb_easy_neg=int(spec.get("nb_easy_neg", 0)),
+        nb_easy_pos=_easy(spec, "nb_easy_pos"), nb_easy_neg=_easy(spec, "nb_easy_neg"),
         score_class=spec.get("score_class", "pos"), equal_class=spec.get("equal_class", "pos"),
         is_sorted=is_sorted,
     )
